@@ -516,3 +516,59 @@ Example C10_example_negative_fitness_not_monotone :
   forall o, PrimFloat.ltb (-1)%float 0%float = true /\
             PrimFloat.ltb (FloatMono.adj_fit o 20 0 4 0%float) (FloatMono.adj_fit o 20 0 4 (-1)%float) = true.
 Proof. exact FloatMonoChamp.adj_fit_negative_not_monotone. Qed.
+
+(* ============================================================================================ *)
+(* ==== agent-full: C10_full is settled -- it is FALSE (proofs/FullStatementsC10.v) ============ *)
+(* ============================================================================================ *)
+(* C10_full reads "fittest" as "of strictly maximal RAW fitness" and drops the order-preservation
+   hypothesis.  It is refuted by the input of the recorded finding champion-rounding-tie-1ulp, taken
+   exactly as the Go harness replays it on the implementation (harness/epochprops.go, c10RoundingTie):
+   baseOptions() with PopSize 6, CompatThreshold 6, AgeSignificance 1, BabiesStolen 0; start genome
+   xorStart; rand.Seed(42) (the model reads the tape go_tape 42 4000); raw fitness
+   [7, nextafter(7,8), 1, 2, 3, 4] in Population.Organisms order; one NextEpoch with generation 0 on a
+   fresh executor.  All hypotheses of C10_full hold for this run (C10_rounding_tie_witness below spells
+   them out) and its conclusion fails: organism 1 is strictly the fittest of a species with quota 6,
+   yet no organism of the next generation carries its genome.  What IS true is
+   C10_best_of_species_survives_up_to_rounding above. *)
+From NeatModel Require FullStatementsC10.
+
+Theorem C10_full_refuted : ~ C10_full.
+Proof. exact FullStatementsC10.champ_full_refuted. Qed.
+Print Assumptions C10_full_refuted.
+
+(* The witness, inputs written out (o, g0, s0, fs are the four inputs; everything else is computed
+   from them by the model and only named here): the start genome is well-formed, the tape consists of
+   genuine Int63() draws, NewPopulation / the evaluator's write-back / NextEpoch / prepare all succeed;
+   the population is one species sp0 with members 0..5, whose quota after prepare is 6; organism 1 has
+   raw fitness 7 + 1 ulp and every other member is strictly less fit; NO organism b of the next
+   population q' has the genome of organism 1 under any id; the clone that q' does contain is that of
+   organism 0 (raw fitness 7), which ties with organism 1 after the division by the species size. *)
+Theorem C10_rounding_tie_witness :
+  exists o g0 s0 fs p s h q' x' st' p1 sp0 sp1 xb,
+    o = OPT [0x1p-01%float; 0x1p+00%float; 0x1.4p+01%float; 0x1p+00%float; 0x1p+00%float; 0x1.999999999999ap-02%float;
+             0x1.8p+02%float; 0x1p+00%float; 0x1.999999999999ap-03%float; 0x1p-02%float; 0x1.999999999999ap-04%float;
+             0x1.999999999999ap-04%float; 0x1.999999999999ap-04%float; 0x1.ccccccccccccdp-01%float; zero; zero;
+             0x1.eb851eb851eb8p-06%float; 0x1.47ae147ae147bp-04%float; 0x1p-01%float; 0x1.0624dd2f1a9fcp-10%float;
+             0x1.3333333333333p-02%float; 0x1.3333333333333p-02%float; 0x1.3333333333333p-02%float;
+             0x1.999999999999ap-03%float; zero] 6 50 50 0 false [4] [0x1p+00%float] /\
+    g0 = GN 1 [(T 1 [0x1.999999999999ap-04%float; zero; zero; zero; zero; zero; zero; zero]);
+               (T 2 [0x1.999999999999ap-03%float; zero; zero; zero; zero; zero; zero; zero]);
+               (T 3 [0x1.3333333333333p-02%float; zero; zero; zero; zero; zero; zero; zero])]
+              [(N 1 1 17 None); (N 2 1 17 None); (N 3 3 17 None); (N 4 2 4 None)]
+              [(G 1 4 false zero (Some 1) 1 zero true); (G 2 4 false zero (Some 2) 2 zero true);
+               (G 3 4 false zero (Some 3) 3 zero true)] [] /\
+    s0 = {| s_tape := go_tape 42 4000; s_env := {| innovs := []; next_innov := 0; next_node := 0 |} |} /\
+    fs = [0x1.cp+2; 0x1.c000000000001p+2; 1; 2; 3; 4]%float /\
+    wf g0 /\ Forall (fun c => 0 <= c < 2 ^ 63) (s_tape s0) /\
+    new_population o g0 s0 = Ok (p, s) /\
+    set_fitness (p_heap p) (p_orgs p) fs = Ok h /\
+    next_epoch o 0 (p_with_heap p h) {| x_best_id := 0; x_best_reproduced := false |} s = Ok ((q', x'), st') /\
+    (exists sorted best st1, prepare o (p_with_heap p h) s = Ok ((p1, sorted, best), st1)) /\
+    p_species p = [sp0] /\ p_species p1 = [sp1] /\ sp_id sp0 = sp_id sp1 /\ sp_exp sp1 = 6 /\
+    sp_orgs sp0 = [0; 1; 2; 3; 4; 5] /\ hget h 1 = Ok xb /\ o_fit xb = 0x1.c000000000001p+2%float /\
+    (forall k y, In k (sp_orgs sp0) -> hget h k = Ok y -> k <> 1 -> PrimFloat.ltb (o_fit y) (o_fit xb) = true) /\
+    (forall b n, In (o_key b) (p_orgs q') -> hget (p_heap q') (o_key b) = Ok b -> o_genome b <> with_id (o_genome xb) n) /\
+    (exists x0 b, hget h 0 = Ok x0 /\ o_fit x0 = 0x1.cp+2%float /\ In (o_key b) (p_orgs q') /\
+                  hget (p_heap q') (o_key b) = Ok b /\ noid_eqb (o_genome b) (o_genome x0) = true).
+Proof. exact FullStatementsC10.champ_tie_witness. Qed.
+Print Assumptions C10_rounding_tie_witness.
